@@ -102,9 +102,34 @@ def unbounded_clock(c):
     c.log("apalache: IndInv inductive for the unbounded clock, step properties hold, witness fails (%d runs)" % len(res))
 
 
+def clock_concurrent(c):
+    """MemClockConc.tla: one clock object under concurrent Increment / Witness (load + compare-and-swap loop); the real
+    MemClock and PersistedClock are stressed and observed at the boundaries of the calls."""
+    c.tlc_model("MC_MemClockConc", "MC_MemClockConc.cfg", timeout=300, label="2 witnessers (load / compare-and-swap) x 2 incrementers x 3, every interleaving")
+    r = c.tlc("MC_MemClockConc", "MC_MemClockConc_noretry.cfg", timeout=300, label="witness: giving up after a failed compare-and-swap must be reported by the model")
+    if r.violated != "Dominates":
+        raise Broken("MemClockConc does not distinguish retrying from giving up after a failed compare-and-swap (vacuity guard)")
+    out = os.path.join(c.scratch, "clock-conc.ndjson")
+    rounds = 8 if c.tier == "quick" else 120
+    c.vh(["clock-conc", out, rounds], timeout=1800)
+    recs = [json.loads(l) for l in open(out)]
+    if len(recs) != 2 * rounds or min(r["increments"] for r in recs) < 100:
+        raise Broken("the concurrent clock runs did not run: %s" % recs[:2])
+    c.cov["clock_concurrent"] = {"runs": len(recs), "witnesses": sum(r["witnesses"] for r in recs), "increments": sum(r["increments"] for r in recs)}
+    c.cov["vectors_executed"] = c.cov.get("vectors_executed", 0) + len(recs)
+    seen = set()
+    for r in recs:
+        for kind, what in (("lost", "Witness(v) returned with the clock below v"), ("stale", "an Increment begun after Witness(v) returned yielded v or less"), ("duplicate", "a time was handed out twice")):
+            key = "clockconc:%s:%s" % (r["impl"], kind)
+            if r[kind] and key not in seen:
+                seen.add(key)
+                c.report(key, "%s under concurrent use: %s (%d times in %d witnesses / %d increments): %s" % (r["impl"], what, r[kind], r["witnesses"], r["increments"], r["examples"][:3]), {"clock_concurrent": True})
+
+
 def run(c):
     unbounded_clock(c)
     clock_vectors(c)
+    clock_concurrent(c)
     gb.exhaustive(c, INV + ["MergeTruthful"], restart=True, loaderless=False)
     r = c.tlc("MC_GitBug", "MC_GitBug_leap.cfg", timeout=600, label="the design's counterexample: after a leap of the edit clock a commit on an older bug is not readable (known finding far-clock)")
     if r.violated != "AllReadable":
@@ -114,6 +139,9 @@ def run(c):
 
 
 def replay(c, rep):
+    if rep["replay"].get("clock_concurrent"):
+        c.cov["states"] = c.cov["transitions"] = 1
+        return clock_concurrent(c)
     if "clock_vector" in rep["replay"]:
         vf = os.path.join(c.scratch, "cv.ndjson")
         out = os.path.join(c.scratch, "co.ndjson")
